@@ -14,6 +14,9 @@ Inductive case :=
 | KStepErr (p : nat) (d : sdir) (v out : list Q) (rtol : Q)
   (** calc_step_fn_steps_vals(values, ind) -> (pre, post) ; ind = None: argmin of the p=1 error *)
 | KStepLevels (v : list Q) (ind : option nat) (pre post : Q) (rtol : Q)
+  (** same call, split samples with an empty side included (ind = 0: no sample before, ind = npts-1: none after):
+      an observed level [None] = the implementation returned NaN, which is what the mean of no samples must be *)
+| KStepLevelsN (v : list Q) (ind : option nat) (pre post : option Q) (rtol : Q)
   (** relational clauses evaluated on implementation outputs of the design-spectrum functions *)
 | KSdCh (t z r n sd ch : Q) (rtol : Q)          (* sd_nzs = c_h_factor * T^2 * Z * N * R *)
 | KJump (left right tol : Q)                     (* |c_h(b-) - c_h(b)| <= tol across a segment boundary *)
@@ -23,8 +26,20 @@ Definition qmatmax (m : list (list Q)) : Q := fold_left (fun a r => let b := qab
 Definition qmax1 (a : Q) : Q := if Qltb a 1 then 1%Q else a.
 Definition all_eq (l : list Q) : bool := match l with [] => true | a :: r => forallb (Qeqb a) r end.
 
+(** level of one side of the split: the mean of its samples, [None] when it has none *)
+Definition side_level (side : list Q) : option Q := match side with [] => None | _ => Some (mean side) end.
+Definition split_of (v : list Q) (ind : option nat) : nat :=
+  match ind with Some i => i | None => argmin (step_err 1 DNone v) end.
+Definition opt_qclose (tol : Q) (m obs : option Q) : bool :=
+  match m, obs with
+  | Some a, Some b => qclose tol a b
+  | None, None => true
+  | _, _ => false
+  end.
+
 (** model outputs (for replay files) *)
-Inductive mout := MList (l : list Q) | MMat (m : list (list Q)) | MOpt (o : option (list Q)) | MPair (a b : Q) | MNone.
+Inductive mout := MList (l : list Q) | MMat (m : list (list Q)) | MOpt (o : option (list Q)) | MPair (a b : Q)
+  | MSides (a b : option Q) | MNone.
 Definition model_out (c : case) : mout :=
   match c with
   | KInterp2d eps x xf f _ _ => MMat (interp2d eps x xf f)
@@ -34,6 +49,7 @@ Definition model_out (c : case) : mout :=
   | KStepErr p d v _ _ => MList (step_err p d v)
   | KStepLevels v (Some i) _ _ _ => let '(a, b) := step_levels v i in MPair a b
   | KStepLevels v None _ _ _ => let '(a, b) := step_levels_auto v in MPair a b
+  | KStepLevelsN v ind _ _ _ => let i := split_of v ind in MSides (side_level (firstn i v)) (side_level (skipn (S i) v))
   | KSdCh t z r n _ ch _ => MPair (Qred (ch * t * t * z * n * r)) 0
   | KTeff lam _ _ => MPair (Qred (3 * lam)) 0
   | KJump _ _ _ => MNone
@@ -65,6 +81,11 @@ Definition check_case (c : case) : bool :=
   | KStepLevels v ind pre post rtol =>
       let '(a, b) := match ind with Some i => step_levels v i | None => step_levels_auto v end in
       let tol := rtol * qmax1 (qabsmax v) in qclose tol a pre && qclose tol b post
+  | KStepLevelsN v ind pre post rtol =>
+      (* the sides are the ones [step_levels] averages: firstn ind v and skipn (S ind) v *)
+      let i := split_of v ind in
+      let tol := rtol * qmax1 (qabsmax v) in
+      opt_qclose tol (side_level (firstn i v)) pre && opt_qclose tol (side_level (skipn (S i) v)) post
   | KSdCh t z r n sd ch rtol =>
       let m := ch * t * t * z * n * r in qclose (rtol * qmax1 (Qabs m)) m sd
   | KJump l r tol => qclose tol l r
